@@ -1,4 +1,12 @@
 ---------------------------- MODULE MC_SlotsImpl ----------------------------
 EXTENDS SlotsImpl
 Range == Abs!Range
+\* tie to the set-based model whose invariant Apalache proves inductive (SlotsInd.tla):
+\* every reachable state of the implementation-shaped model satisfies IndInv, and every
+\* step is a step of SlotsInd, under the mapping freed |-> the set of ids in the sequence
+Ind == INSTANCE SlotsInd WITH freed <- {freed[k] : k \in 1..Len(freed)},
+                              res <- res.kind, rid <- res.id,
+                              BugFreedKeep <- BugFreedSet, BugNoFree <- FALSE
+IndInvImpl == Ind!IndInv
+RefinesInd == Ind!IndSpec
 =============================================================================
